@@ -28,6 +28,12 @@ pub const SITE_NAMES: [&str; NSITES] = [
 /// a PRNG-driven run stops pre-empting inside calls after this many context switches (each costs ~20-40 us)
 pub const MAX_INTRA_SWITCHES: u64 = 3000;
 
+/// threads the library spawns itself from inside a call are adopted by the scheduler (up to this many per run);
+/// in switch lists they are numbered HELPER_BASE + k (k = order of creation), so that a list stays valid when the
+/// minimiser drops or merges caller threads
+pub const MAX_HELPERS: usize = 8;
+pub const HELPER_BASE: u32 = 1000;
+
 /// per-call cap on ticks inside a simulated run (pool entries need far fewer: see oracle::isolated_tick_cap)
 pub fn call_step_cap() -> u64 {
     if tick::bb_guards() > 0 {
@@ -197,6 +203,8 @@ enum Kind {
     Tick(usize),
     Exit,
     Blocked,
+    /// sched_yield() from inside the library: prefer somebody else
+    Yield,
 }
 
 struct St {
@@ -206,6 +214,17 @@ struct St {
     done: Vec<bool>,
     blocked: Vec<Option<usize>>,
     blocked_val: Vec<u32>,
+    /// a timed wait / sleep: the virtual monotonic time at which it ends by itself
+    deadline: Vec<Option<i64>>,
+    /// this decision may end a timed wait early ("the timer fires"): drawn per decision from the run's PRNG
+    allow_timers: bool,
+    timer_q: f64,
+    timeouts: u64,
+    sleeps: u64,
+    yields: u64,
+    /// number of caller threads (indices 0..nc); indices nc..nc+MAX_HELPERS are adopted library threads
+    nc: usize,
+    helpers: usize,
     rescued: u64,
     in_call: Vec<Option<u32>>,
     cur_call: Vec<u32>,
@@ -252,6 +271,9 @@ struct St {
 struct Shared {
     m: Mutex<St>,
     cv: Vec<Condvar>,
+    /// index of the coordinator's condvar / baton value
+    coord: usize,
+    adopt_cv: Condvar,
     pool: &'static Pool,
     spec: &'static RunSpec,
     n: usize,
@@ -312,7 +334,7 @@ pub fn slow_tick(c: &TickCtx, site: usize) {
 
 /// `syscall(SYS_futex, ..)` issued by a caller thread from inside a library call. Returns Some(result) when
 /// the simulator handled it (the thread never blocks in the kernel), None to let the real system call run.
-pub fn intercept_futex(addr: usize, op: i32, val: u32) -> Option<i64> {
+pub fn intercept_futex(addr: usize, op: i32, val: u32, timeout: *const libc::timespec) -> Option<i64> {
     let cmd = op & 0x7f;
     let is_wait = cmd == libc::FUTEX_WAIT || cmd == libc::FUTEX_WAIT_BITSET;
     let is_wake = cmd == libc::FUTEX_WAKE || cmd == libc::FUTEX_WAKE_BITSET;
@@ -332,8 +354,31 @@ pub fn intercept_futex(addr: usize, op: i32, val: u32) -> Option<i64> {
                 unsafe { *libc::__errno_location() = libc::EAGAIN };
                 -1
             } else {
-                sh.block_on(c, addr, val);
-                0
+                // FUTEX_WAIT: relative timeout; FUTEX_WAIT_BITSET: absolute, on the monotonic clock unless
+                // FUTEX_CLOCK_REALTIME is set. The library computed absolute times from the virtual clock.
+                let deadline = if timeout.is_null() {
+                    None
+                } else {
+                    let ts = unsafe { *timeout };
+                    let ns = (ts.tv_sec as i64).saturating_mul(1_000_000_000).saturating_add(ts.tv_nsec as i64);
+                    let (vm, vr) = {
+                        let st = sh.m.lock().unwrap();
+                        (st.vmono, st.vreal)
+                    };
+                    Some(if cmd == libc::FUTEX_WAIT {
+                        vm.saturating_add(ns)
+                    } else if op & libc::FUTEX_CLOCK_REALTIME != 0 {
+                        (ns - VCLOCK_REAL_BASE - vr).saturating_add(vm)
+                    } else {
+                        ns - VCLOCK_MONO_BASE
+                    })
+                };
+                if sh.block_on(c, addr, val, deadline) {
+                    0
+                } else {
+                    unsafe { *libc::__errno_location() = libc::ETIMEDOUT };
+                    -1
+                }
             }
         } else {
             sh.wake(addr, val)
@@ -343,6 +388,148 @@ pub fn intercept_futex(addr: usize, op: i32, val: u32) -> Option<i64> {
     })
     .ok()
     .flatten()
+}
+
+/// entropy seed of the current simulated run (None outside a run)
+pub fn run_entropy() -> Option<u64> {
+    shared().map(|sh| sh.spec.seed)
+}
+
+/// nanosleep / clock_nanosleep issued by a library thread inside a simulated run: a timed wait on nothing.
+/// `abs`: None = relative nanoseconds, Some(realtime?) = absolute on that clock. Returns false if not handled.
+pub fn intercept_sleep(ns: i64, abs: Option<bool>) -> bool {
+    T.try_with(|c| {
+        if c.mode.get() != tick::MODE_SIM || !c.in_call.get() || c.in_hook.get() {
+            return false;
+        }
+        let sh = match shared() {
+            Some(s) => s,
+            None => return false,
+        };
+        c.in_hook.set(true);
+        let (vm, vr) = {
+            let st = sh.m.lock().unwrap();
+            (st.vmono, st.vreal)
+        };
+        let deadline = match abs {
+            None => vm.saturating_add(ns.max(0)),
+            Some(true) => (ns - VCLOCK_REAL_BASE - vr).saturating_add(vm),
+            Some(false) => ns - VCLOCK_MONO_BASE,
+        };
+        sh.block_on(c, 1, 0, Some(deadline));
+        c.in_hook.set(false);
+        true
+    })
+    .unwrap_or(false)
+}
+
+/// sched_yield() from a library thread inside a simulated run: a decision point that prefers another thread
+pub fn intercept_yield() -> bool {
+    T.try_with(|c| {
+        if c.mode.get() != tick::MODE_SIM || !c.in_call.get() || c.in_hook.get() {
+            return false;
+        }
+        let sh = match shared() {
+            Some(s) => s,
+            None => return false,
+        };
+        c.in_hook.set(true);
+        sh.m.lock().unwrap().yields += 1;
+        c.ticks.set(c.ticks.get() + 1);
+        let wake = sh.decision(c.me.get(), c.call_no.get(), c.ticks.get(), Kind::Yield, c);
+        c.wake.set(wake);
+        c.in_hook.set(false);
+        true
+    })
+    .unwrap_or(false)
+}
+
+/// pthread_create called by a library thread inside a simulated run: reserve a scheduler slot for the new thread.
+/// Leaves `in_hook` set on the creating thread until `adopt_end`.
+pub fn adopt_begin() -> Option<usize> {
+    T.try_with(|c| {
+        if c.mode.get() != tick::MODE_SIM || !c.in_call.get() || c.in_hook.get() {
+            return None;
+        }
+        let sh = shared()?;
+        let mut st = sh.m.lock().unwrap();
+        if st.helpers >= MAX_HELPERS {
+            return None;
+        }
+        let id = st.nc + st.helpers;
+        st.helpers += 1;
+        c.in_hook.set(true);
+        Some(id)
+    })
+    .ok()
+    .flatten()
+}
+
+/// the creating thread (holding the baton) waits until the new thread is parked in the scheduler
+pub fn adopt_end(id: usize, created: bool) {
+    if let Some(sh) = shared() {
+        let mut st = sh.m.lock().unwrap();
+        if created {
+            while !st.ready[id] {
+                st = sh.adopt_cv.wait(st).unwrap();
+            }
+            st.log.u64(0xAD09_0000 | id as u64);
+        } else {
+            st.helpers -= 1;
+        }
+    }
+    let _ = T.try_with(|c| c.in_hook.set(false));
+}
+
+/// body of an adopted library thread: register, wait for the baton, run the library's start routine under the
+/// scheduler (every tick, futex wait, sleep and yield of it is a decision point), then leave.
+pub fn helper_main(id: usize, body: &mut dyn FnMut()) {
+    let sh = match shared() {
+        Some(s) => s,
+        None => {
+            body();
+            return;
+        }
+    };
+    T.with(|c| {
+        c.mode.set(tick::MODE_SIM);
+        c.me.set(id);
+        c.in_hook.set(true);
+        c.in_call.set(true);
+        c.cap.set(u64::MAX);
+        c.wake.set(u64::MAX);
+        c.target_site.set(match &sh.spec.policy {
+            Policy::Targeted { site, .. } => *site,
+            _ => usize::MAX,
+        });
+        c.track_mem.set(matches!(sh.spec.policy, Policy::RaceDirected { .. }));
+        tick::note_stack(c, 0);
+        tick::begin_call(c, 0);
+        set_thread_hook(Some(tick::source_hook));
+        {
+            let mut st = sh.m.lock().unwrap();
+            st.done[id] = false;
+            st.ready[id] = true;
+            st.parked_site[id] = BOUNDARY;
+            st.cur_call[id] = 0;
+            let pr = 1000 + st.rng.below(64) as i64;
+            st.prio[id] = pr;
+            st.order.push(id);
+            sh.adopt_cv.notify_all();
+            while st.current != id {
+                st = sh.cv[id].wait(st).unwrap();
+            }
+            let w = st.compute_wake(sh.spec, id, 0, 0);
+            c.wake.set(w);
+        }
+        c.in_hook.set(false);
+        body();
+        c.in_hook.set(true);
+        set_thread_hook(None);
+        sh.decision(id, 0, c.ticks.get(), Kind::Exit, c);
+        c.in_call.set(false);
+        c.mode.set(tick::MODE_OFF);
+    });
 }
 
 fn geometric(rng: &mut Rng, p: f64) -> u64 {
@@ -363,7 +550,21 @@ fn geometric(rng: &mut Rng, p: f64) -> u64 {
 
 impl St {
     fn eligible(&self, i: usize) -> bool {
-        !self.done[i] && self.blocked[i].is_none()
+        // a timed waiter can run when the scheduler lets its timer fire early, and in any case once virtual time has
+        // passed its deadline (clock jumps of F8, or other timers, move the clock)
+        !self.done[i] && (self.blocked[i].is_none() || self.deadline[i].map_or(false, |d| self.allow_timers || d <= self.vmono))
+    }
+
+    fn enc(&self, i: usize) -> u32 {
+        if i >= self.nc { HELPER_BASE + (i - self.nc) as u32 } else { i as u32 }
+    }
+
+    fn dec(&self, x: u32) -> usize {
+        if x >= HELPER_BASE { self.nc + (x - HELPER_BASE) as usize } else { x as usize }
+    }
+
+    fn helpers_alive(&self) -> bool {
+        (self.nc..self.done.len()).any(|i| !self.done[i])
     }
 
     fn random_other(&mut self, me: usize) -> Option<usize> {
@@ -380,6 +581,17 @@ impl St {
     fn decide(&mut self, spec: &RunSpec, me: usize, pos: (u32, u32), kind: Kind) -> Option<usize> {
         let must_leave = matches!(kind, Kind::Exit | Kind::Blocked);
         let stay = if must_leave { None } else { Some(me) };
+        if self.deadline.iter().any(|d| d.is_some()) {
+            // somebody is in a timed wait: may its timer fire now? Always when replaying (the list says who runs), and
+            // whenever nobody could run otherwise
+            self.allow_timers = spec.policy == Policy::Replay || self.rng.chance(self.timer_q);
+            if !self.allow_timers && must_leave && !(0..self.done.len()).any(|i| i != me && self.eligible(i)) {
+                self.allow_timers = true;
+            }
+        }
+        if kind == Kind::Yield && spec.policy != Policy::Replay {
+            return self.random_other(me).or(stay);
+        }
         if matches!(kind, Kind::Tick(_)) && self.switches > MAX_INTRA_SWITCHES && spec.policy != Policy::Replay {
             return stay;
         }
@@ -394,6 +606,7 @@ impl St {
                 }
             }
             Policy::CallAtomic { q } => match kind {
+                Kind::Yield => stay,
                 Kind::Exit | Kind::Blocked => self.random_other(me),
                 Kind::Boundary => {
                     if self.rng.chance(*q) {
@@ -405,6 +618,7 @@ impl St {
                 Kind::Tick(_) => stay,
             },
             Policy::RandomWalk { .. } | Policy::Targeted { .. } => match kind {
+                Kind::Yield => stay,
                 Kind::Exit | Kind::Blocked => self.random_other(me),
                 Kind::Boundary => {
                     if self.rng.chance(0.4) {
@@ -417,6 +631,7 @@ impl St {
                 Kind::Tick(_) => self.random_other(me).or(stay),
             },
             Policy::RaceDirected { q, .. } => match kind {
+                Kind::Yield => stay,
                 Kind::Exit | Kind::Blocked => self.random_other(me),
                 Kind::Boundary => {
                     if self.rng.chance(0.4) {
@@ -464,7 +679,7 @@ impl St {
                 Some(h) => *h,
                 None => break,
             };
-            let ht = head.thread as usize;
+            let ht = self.dec(head.thread);
             if ht >= n || (self.done[ht] && ht != me) {
                 self.sw_i += 1;
                 continue;
@@ -477,7 +692,7 @@ impl St {
                 }
                 if hp == pos {
                     self.sw_i += 1;
-                    let to = head.to as usize;
+                    let to = self.dec(head.to);
                     if to < n && to != me && self.eligible(to) {
                         return Some(to);
                     }
@@ -529,7 +744,7 @@ impl St {
                         Some(h) => *h,
                         None => return u64::MAX,
                     };
-                    let ht = head.thread as usize;
+                    let ht = self.dec(head.thread);
                     if ht >= n || (self.done[ht] && ht != me) {
                         i += 1;
                         continue;
@@ -564,10 +779,18 @@ impl Shared {
             Kind::Tick(s) => s,
             Kind::Exit => EXITED,
             Kind::Blocked => BLOCKED,
+            Kind::Yield => tick::BBLOCK,
         };
         if kind == Kind::Exit {
             st.done[me] = true;
             st.in_call[me] = None;
+            if me < self.n && st.done[..self.n].iter().all(|d| *d) {
+                // the last caller is finished: the run is over, whatever the library's own threads are doing
+                st.exit_join = Some((me, None));
+                st.current = self.coord;
+                self.cv[self.coord].notify_one();
+                return u64::MAX;
+            }
         }
         st.parked_site[me] = site;
         st.cur_call[me] = call_no;
@@ -582,12 +805,13 @@ impl Shared {
                 st.log.u64(((me as u64) << 40) | nx as u64);
                 st.log.u64(((call_no as u64) << 32) | tick32 as u64);
                 st.switches += 1;
-                st.rec.push(Sw { thread: me as u32, call: call_no, tick: tick32, to: nx as u32 });
+                let (em, en) = (st.enc(me), st.enc(nx));
+                st.rec.push(Sw { thread: em, call: call_no, tick: tick32, to: en });
                 let to_site = st.parked_site[nx];
                 st.pairs[site][to_site] += 1;
                 st.sched.u64(((me as u64) << 48) | ((nx as u64) << 40) | ((site as u64) << 32) | call_no as u64);
                 st.sched.u64(tick);
-                if matches!(kind, Kind::Tick(_) | Kind::Blocked) {
+                if matches!(kind, Kind::Tick(_) | Kind::Blocked | Kind::Yield) {
                     st.preempt_site[site] += 1;
                     st.f[5] += 1;
                     let inflight = st.in_call.iter().filter(|c| c.is_some()).count();
@@ -598,7 +822,7 @@ impl Shared {
                     if let Some(mine) = st.in_call[me] {
                         let other = match st.in_call[nx] {
                             Some(o) => Some(o),
-                            None => self.spec.clients[nx].get(st.cur_call[nx] as usize).copied(),
+                            None => self.spec.clients.get(nx).and_then(|cl| cl.get(st.cur_call[nx] as usize).copied()),
                         };
                         if let Some(o) = other {
                             let (a, b) = (&self.pool.entries[mine as usize], &self.pool.entries[o as usize]);
@@ -615,7 +839,14 @@ impl Shared {
                     // does) and then passes the baton on to `nx`. Otherwise (a destructor might want a lock a
                     // parked thread holds, and outside a call the simulator cannot schedule around that) the OS
                     // thread is kept parked until the process ends and never runs its destructors.
-                    if st.in_call.iter().any(|x| x.is_some()) {
+                    if me >= self.n {
+                        // an adopted library thread returns from its start routine: hand the baton on and let the OS
+                        // thread end (somebody may be joining it)
+                        st.current = nx;
+                        self.cv[nx].notify_one();
+                        return u64::MAX;
+                    }
+                    if st.in_call.iter().any(|x| x.is_some()) || st.helpers_alive() {
                         st.current = nx;
                         self.cv[nx].notify_one();
                         loop {
@@ -623,8 +854,8 @@ impl Shared {
                         }
                     }
                     st.exit_join = Some((me, Some(nx)));
-                    st.current = self.n;
-                    self.cv[self.n].notify_one();
+                    st.current = self.coord;
+                    self.cv[self.coord].notify_one();
                     return u64::MAX;
                 }
                 st.current = nx;
@@ -638,9 +869,15 @@ impl Shared {
                 match kind {
                     Kind::Exit => {
                         // nobody left to run: back to the coordinator (which also notices stuck threads)
-                        st.exit_join = Some((me, None));
-                        st.current = self.n;
-                        self.cv[self.n].notify_one();
+                        if me < self.n {
+                            st.exit_join = Some((me, None));
+                        }
+                        st.current = self.coord;
+                        self.cv[self.coord].notify_one();
+                    }
+                    Kind::Blocked if st.deadline[me].is_some() => {
+                        // nobody else can run and this wait is timed: its timer fires (the caller sees that the
+                        // word was not released and reports a timeout)
                     }
                     Kind::Blocked => {
                         // every other thread is finished or blocked as well. Either a deadlock inside the code under
@@ -680,6 +917,9 @@ impl Shared {
         for _ in 0..400 {
             for i in 0..st.blocked.len() {
                 if let Some(addr) = st.blocked[i] {
+                    if addr < 4096 {
+                        continue; // a sleep, not a futex word
+                    }
                     let cur = unsafe { (*(addr as *const std::sync::atomic::AtomicU32)).load(Ordering::SeqCst) };
                     if cur != st.blocked_val[i] {
                         st.blocked[i] = None;
@@ -696,16 +936,48 @@ impl Shared {
     }
 
     /// `me` is about to sleep on the futex word at `addr`: park it in the simulator instead.
-    fn block_on(&self, c: &TickCtx, addr: usize, expected: u32) {
+    /// `deadline`: virtual monotonic time at which the wait ends by itself. Returns false if it ended that way.
+    fn block_on(&self, c: &TickCtx, addr: usize, expected: u32, deadline: Option<i64>) -> bool {
         let me = c.me.get();
+        // a blocking operation is an event of its own on the thread's time line: it gets its own tick number, so that
+        // "pre-empted at tick t" and "went to sleep right after tick t" are different positions in a switch list
+        c.ticks.set(c.ticks.get() + 1);
         {
             let mut st = self.m.lock().unwrap();
             st.blocked[me] = Some(addr);
             st.blocked_val[me] = expected;
-            st.futex_waits += 1;
+            st.deadline[me] = deadline;
+            if addr >= 4096 {
+                st.futex_waits += 1;
+            } else {
+                st.sleeps += 1;
+            }
         }
         let wake = self.decision(me, c.call_no.get(), c.ticks.get(), Kind::Blocked, c);
         c.wake.set(wake);
+        let mut st = self.m.lock().unwrap();
+        let d = st.deadline[me].take();
+        if st.blocked[me].take().is_some() {
+            // still parked on the word: the scheduler let the timer fire; virtual time moves to the deadline
+            if let Some(d) = d {
+                if d > st.vmono {
+                    let adv = d - st.vmono;
+                    st.vmono += adv;
+                    st.vreal += adv;
+                }
+                if addr >= 4096 {
+                    st.timeouts += 1;
+                }
+                st.log.u64(0x71AE_0000 | me as u64);
+            }
+            return false;
+        }
+        true
+    }
+
+    /// virtual monotonic "now" (ns since the run's monotonic base)
+    fn vnow(&self) -> i64 {
+        self.m.lock().unwrap().vmono
     }
 
     /// futex wake: make up to `n` threads parked on `addr` runnable again (lowest index first)
@@ -718,6 +990,7 @@ impl Shared {
             }
             if st.blocked[i] == Some(addr) {
                 st.blocked[i] = None;
+                st.deadline[i] = None;
                 woken += 1;
             }
         }
@@ -822,7 +1095,7 @@ impl Shared {
             "sens": st.sens_calls,
             "pf": self.spec.policy.family(),
             "pn": self.spec.policy.name(),
-            "nt": self.n,
+            "nt": self.n, "hl": st.helpers, "tmo": st.timeouts, "slp": st.sleeps, "yld": st.yields,
             "mi": st.max_inflight,
         });
         if let Some(x) = violation {
@@ -857,7 +1130,7 @@ fn client_main(sh: &'static Shared, me: usize, start_call: usize) {
         {
             let mut st = sh.m.lock().unwrap();
             st.ready[me] = true;
-            sh.cv[sh.n].notify_one();
+            sh.cv[sh.coord].notify_one();
             while st.current != me {
                 st = sh.cv[me].wait(st).unwrap();
             }
@@ -904,7 +1177,7 @@ fn client_main(sh: &'static Shared, me: usize, start_call: usize) {
                 // critical section a destructor wants), the retirement is deferred to this thread's next boundary
                 // at which nobody is mid-call.
                 let mut st = sh.m.lock().unwrap();
-                if st.in_call.iter().any(|x| x.is_some()) {
+                if st.in_call.iter().any(|x| x.is_some()) || st.helpers_alive() {
                     churn_pending = true;
                     continue;
                 }
@@ -913,8 +1186,8 @@ fn client_main(sh: &'static Shared, me: usize, start_call: usize) {
                 st.f[6] += 1;
                 st.churn_req = Some((me, k));
                 st.ready[me] = false;
-                st.current = sh.n;
-                sh.cv[sh.n].notify_one();
+                st.current = sh.coord;
+                sh.cv[sh.coord].notify_one();
                 return;
             }
         }
@@ -932,7 +1205,7 @@ fn spawn_client(sh: &'static Shared, me: usize, start_call: usize) -> std::threa
         .unwrap_or_else(|_| proc::harness_die("cannot spawn client thread"));
     let mut st = sh.m.lock().unwrap();
     while !st.ready[me] {
-        st = sh.cv[sh.n].wait(st).unwrap();
+        st = sh.cv[sh.coord].wait(st).unwrap();
     }
     drop(st);
     h
@@ -946,11 +1219,17 @@ pub fn run_child(pool: &Pool, spec: &RunSpec) -> ! {
     let pool: &'static Pool = unsafe { &*(pool as *const Pool) };
     let spec: &'static RunSpec = unsafe { &*(spec as *const RunSpec) };
     let n = spec.clients.len();
+    let cap = n + MAX_HELPERS;
     let mut rng = Rng::new(mix(spec.seed, 0x7363_6865_64));
     let mut order: Vec<usize> = (0..n).collect();
     rng.shuffle(&mut order);
     let mut prio: Vec<i64> = (0..n as i64).map(|i| 1000 + i).collect();
     rng.shuffle(&mut prio);
+    prio.resize(cap, 0);
+    let mut done0 = vec![false; n];
+    done0.resize(cap, true);
+    // how readily a timed wait is ended early by the scheduler: a knob of the run
+    let timer_q = [0.02, 0.1, 0.3, 1.0][(mix(spec.seed, 0x74_696d_6572) % 4) as usize];
     let mut change_points = BTreeSet::new();
     if let Policy::Pct { k } = &spec.policy {
         for _ in 0..*k {
@@ -960,14 +1239,22 @@ pub fn run_child(pool: &Pool, spec: &RunSpec) -> ! {
     let st = St {
         current: usize::MAX,
         start: 0,
-        ready: vec![false; n],
-        done: vec![false; n],
-        blocked: vec![None; n],
-        blocked_val: vec![0; n],
+        ready: vec![false; cap],
+        done: done0,
+        blocked: vec![None; cap],
+        blocked_val: vec![0; cap],
+        deadline: vec![None; cap],
+        allow_timers: spec.policy == Policy::Replay,
+        timer_q,
+        timeouts: 0,
+        sleeps: 0,
+        yields: 0,
+        nc: n,
+        helpers: 0,
         rescued: 0,
-        in_call: vec![None; n],
-        cur_call: vec![0; n],
-        parked_site: vec![BOUNDARY; n],
+        in_call: vec![None; cap],
+        cur_call: vec![0; cap],
+        parked_site: vec![BOUNDARY; cap],
         churn_req: None,
         exit_join: None,
         rng,
@@ -1003,7 +1290,9 @@ pub fn run_child(pool: &Pool, spec: &RunSpec) -> ! {
     };
     let sh: &'static Shared = Box::leak(Box::new(Shared {
         m: Mutex::new(st),
-        cv: (0..n + 1).map(|_| Condvar::new()).collect(),
+        cv: (0..cap + 1).map(|_| Condvar::new()).collect(),
+        coord: cap,
+        adopt_cv: Condvar::new(),
         pool,
         spec,
         n,
@@ -1035,8 +1324,8 @@ pub fn run_child(pool: &Pool, spec: &RunSpec) -> ! {
         st.start = start as u32;
         sh.cv[start].notify_one();
         loop {
-            while st.current != n {
-                st = sh.cv[n].wait(st).unwrap();
+            while st.current != cap {
+                st = sh.cv[cap].wait(st).unwrap();
             }
             if let Some((c, k)) = st.churn_req.take() {
                 drop(st);
@@ -1053,7 +1342,7 @@ pub fn run_child(pool: &Pool, spec: &RunSpec) -> ! {
             if let Some((c, next)) = st.exit_join.take() {
                 // a client finished while nobody was mid-call: let its OS thread terminate (TLS destructors run
                 // now, alone), then pass the baton on
-                let blocked_mid_call = st.in_call.iter().any(|x| x.is_some());
+                let blocked_mid_call = st.in_call.iter().any(|x| x.is_some()) || st.helpers_alive();
                 drop(st);
                 if !blocked_mid_call {
                     if let Some(h) = handles[c].take() {
@@ -1067,11 +1356,12 @@ pub fn run_child(pool: &Pool, spec: &RunSpec) -> ! {
                     continue;
                 }
             }
-            if st.done.iter().all(|d| *d) {
+            if st.done[..n].iter().all(|d| *d) {
                 break;
             }
             // the last runnable thread exited while others are still parked on a futex nobody will wake
-            match (0..n).find(|i| st.eligible(*i)) {
+            st.allow_timers = true;
+            match (0..cap).find(|i| st.eligible(*i)) {
                 Some(nx) => {
                     st.current = nx;
                     sh.cv[nx].notify_one();
